@@ -105,8 +105,8 @@ def check_pair(t, v, junk=b"\xa5\x5a\x00"):
             wire = wire_for(t, v)
         except PycommError as e:
             return [Disc(f"encode.rejects.{tk}", f"encode of in-domain value raised {e!r}: type={t} value={v!r}"[:600])]
-        if not isinstance(wire, (bytes, bytearray)):
-            return [Disc(f"encode.notbytes.{tk}", f"encode returned {type(wire)}")]
+        if not isinstance(wire, bytes):      # what decode accepts (bytes or a stream): decode(encode(v)) must work as written
+            return [Disc(f"encode.notbytes.{tk}", f"encode returned {type(wire).__name__}, which decode does not accept: type={t}"[:300])]
         wire = bytes(wire)
         # L1
         try:
